@@ -153,6 +153,28 @@ func (d *driver) decodeInput(c *decCase, i int) []byte {
 		return largerRoot(y2)
 	}
 	switch c.Cls {
+	case "relpair":
+		// member 2j: an x; member 2j+1: a different x that a cheap digest of the limbs cannot tell from it (see limbRelatives)
+		j := i / 2
+		q := newPrg("relpair", d.seed, c.Fn, j)
+		var base [4]uint64
+		for t := range base {
+			base[t] = q.big(60).Uint64() | 1
+		}
+		_, rels := limbRelatives(base, q)
+		if j%3 == 0 {
+			base = [4]uint64{}
+			_, rels = zeroRelatives(q)
+		}
+		l := base
+		if i%2 == 1 {
+			l = rels[q.intn(len(rels))]
+		}
+		x := bigOfWords(l)
+		if j%2 == 1 { // the limbs are those of the stored (Montgomery) form
+			x.Mul(x, new(big.Int).ModInverse(two256, modP)).Mod(x, modP)
+		}
+		return mk(x, yOf(x))
 	case "valid":
 		x := findX(p, "valid")
 		return mk(x, yOf(x))
@@ -320,7 +342,7 @@ func (d *driver) runDecodeCase(w emitter, k int, c *decCase) {
 			}()
 			// history: for every second member the TRUSTED decoders see the same bytes first (whatever they leave behind - caches keyed by
 			// the encoding, hints - must not change what the untrusted decoder decides)
-			if i%2 == 1 {
+			if i%2 == 1 && c.Cls != "relpair" {
 				func() {
 					defer func() { recover() }()
 					var t1, t2 banderwagon.Element
